@@ -414,6 +414,10 @@ SCOPE_PROBES = {
     "inner local shadows the enclosing variable": "def f():\n    def g():\n        ov = 1\n        return ov\n    y = 2\n    return g\n",
     "nonlocal in an inner function refers to f's local": "def f():\n    c = 0\n    def g():\n        nonlocal c\n        c += 1\n    return g\n",
     "no inner scope": "def f(a):\n    b = a + ov\n    return b\n",
+    "nonlocal declared (and assigned) two levels down": "def f():\n    def g():\n        def h():\n            nonlocal ov\n            ov = 1\n        return h\n    return g\n",
+    "default value of a definition two levels down": "def f():\n    def g():\n        def h(a=ov):\n            return a\n        return h\n    return g\n",
+    "keyword-only default and base class of nested definitions": "def f():\n    def g(*, k=ov):\n        class K(ow):\n            pass\n        return K\n    return g\n",
+    "global declaration in a branch that is never executed": "def f():\n    if 0:\n        global ov\n    ov = 3\n    def g():\n        return 0\n    return g\n",
 }
 
 
@@ -441,8 +445,8 @@ def _scope_classes_rule(ctx, program):
         pol.param_writeback = True
         pol.inline_depth = 60
         cells = {n: ObjV(f"cell_{n}", "EvalLocalVar") for n in ("ov", "ow")}
-        heap = {"self.func_def": fd, "self.has_closure": Const(False), "self.local_sym_table": DictV([]), "self.local_names": NONE,
-                "ast_ctx.sym_table_stack": ListV((DictV([]),), "list"),
+        heap = {"self.func_def": fd, "self.has_closure": Const(False), "self.local_sym_table": DictV([]), "self.local_names": NONE, "self.global_names": ListV((), "set"),
+                "self.nonlocal_names": ListV((), "set"), "ast_ctx.sym_table_stack": ListV((DictV([]),), "list"),
                 "ast_ctx.sym_table": DictV([(Const(n), c) for n, c in cells.items()])}
         out = run_flow(program, uid, pol, args={"self": ObjV("self", "EvalFunc"), "ast_ctx": ObjV("ast_ctx", "AstEval")}, heap=heap)
         ex = exits(out)
@@ -467,6 +471,11 @@ def _scope_classes_rule(ctx, program):
             wrong = [n for n in enclosing if n in want_local or n in want_glob]
             if wrong:
                 problems.append(f"{wrong} bound to the enclosing function's cell although local/global here")
+            decl = c.heap.get("self.global_names")
+            got_glob = sorted(x.v for x in decl.items if isinstance(x, Const)) if isinstance(decl, ListV) else None
+            if got_glob != want_glob:
+                problems.append(f"the function's set of names declared global is {got_glob} once it is defined, Python fixes it at compile time as {want_glob} "
+                                f"(a `global` statement takes effect whether or not it is executed)")
         if not ex:
             problems.append("no completed path")
         ctx.check(not problems, "R03.14", uid, f"scope classes: {label}",
@@ -509,11 +518,13 @@ def _cell_rule(ctx, program):
                                                  "loopvar_scope_save", "loopvar_scope_restore", "resolve_nonlocals",
                                                  "eval_decorators", "eval_defaults", "trigger_init", "trigger_stop", "check_for_closure"))
     pol.exec_havoc = True
+    # the same policy with every operand evaluation a possible exception: the handler clauses of a try statement are entered
+    rpol = HandlerPolicy(program, raise_at_eval=True, opaque_methods=pol.opaque_methods) if hasattr(pol, "opaque_methods") else None
     for src, mode in CELL_PROBES:
         shape = shape_expr(src) if mode == "eval" else shape_stmt(src)
         handler = f"eval.py::AstEval.ast_{shape.cls.lower()}"
         try:
-            out = run_handler(program, shape, pol, heap=heap)
+            out = run_handler(program, shape, rpol if (src.startswith("try:") and rpol is not None) else pol, heap=heap)
         except AnalysisError as exc:
             ctx.skip("R03.9", handler, f"`{src}` not summarisable: {exc}")
             continue
@@ -525,6 +536,9 @@ def _cell_rule(ctx, program):
             cur = st.get(Const("x")) if isinstance(st, DictV) else None
             if cur is not None and cur != cell:
                 bad = f"after `{' '.join(src.split())}` the scope maps x to {cur!r} instead of its closure cell"
+            elif cur is None:
+                bad = (f"after `{' '.join(src.split())}` the closure cell of x is removed from the scope (a cell is unbound by marking it undefined): a later `x = ..` creates a plain "
+                       f"local that inner functions defined afterwards cannot capture, and functions that captured the cell never see the new value")
         shown = " ".join(src.split())
         if n == 0:
             ctx.skip("R03.9", handler, f"`{shown}`: no normal completion path")
@@ -600,36 +614,60 @@ def _defn_order_rule(ctx, program):
 
 
 def _lookup_order_rule(ctx, program):
-    """ast_name consults: global declarations, current scope, closure/ast functions, globals, builtins (filtered), functions/services, state."""
-    ctx.rule("R03.7", "name lookup order: declared globals, locals, closure cells, globals, restricted builtins, pyscript functions/services, state variables", floor=1)
+    """ast_name interpreted on a table of scopes: which binding a name denotes (precedence), and the NameError-family outcomes."""
+    ctx.rule("R03.7", "name lookup: a name declared global denotes the module global (else the builtin); otherwise the local scope (plain value or closure cell), the "
+                      "evaluator's own names, the module globals, then the restricted builtins; a local that is not bound yet hides globals and builtins (UnboundLocalError)", floor=9)
     fn = program.func("eval.py::AstEval.ast_name")
-    order = []
-    marks = [
-        ("global_decl", lambda t: "curr_func.global_names" in t),
-        ("locals", lambda t: t.startswith("arg.id in self.sym_table")),
-        ("closure", lambda t: t.startswith("arg.id in self.local_sym_table")),
-        ("globals", lambda t: t.startswith("arg.id in self.global_sym_table")),
-        ("ast_builtins", lambda t: "BUILTIN_AST_FUNCS_FACTORY" in t),
-        ("builtins", lambda t: "hasattr(builtins, arg.id)" in t),
-        ("functions", lambda t: t.startswith("Function.get(")),
-        ("state", lambda t: "State.exist" in t or "num_dots == 1" in t),
+    pol = HandlerPolicy(program, opaque_methods=("call_func",))
+    excl = const_set(program.module_const("eval.py", "BUILTIN_EXCLUDE")) or set()
+    pol.mod_consts["BUILTIN_EXCLUDE"] = Const(frozenset(excl))
+    pol.plain_ast_name = True
+    L, C, E, G = Sym(("scope", "local")), Sym(("scope", "cell")), Sym(("scope", "evaluator")), Sym(("scope", "global"))
+    cases = [
+        # (label, name, local scope entry, evaluator-level entry, module global, declared global, in the function's static locals, expected)
+        ("a local hides the global", "x", L, None, G, False, True, L),
+        ("a closure cell hides the global", "x", "cell", None, G, False, True, C),
+        ("evaluator-level names (trigger variables, print) come before module globals", "x", None, E, G, False, False, E),
+        ("a module global hides the builtin", "len", None, None, G, False, False, G),
+        ("builtin", "len", None, None, None, False, False, "builtin"),
+        ("declared global: the module global, not the local of the same name", "x", L, None, G, True, True, G),
+        ("declared global, not defined in the module: the builtin", "len", None, None, None, True, False, "builtin"),
+        ("declared global, defined nowhere", "x", None, None, None, True, False, "NameError"),
+        ("local not bound yet, a global of that name exists", "x", None, None, G, False, True, "UnboundLocalError"),
+        ("local not bound yet, a builtin of that name exists", "len", None, None, None, False, True, "UnboundLocalError"),
     ]
-    load_block = None
-    for n in fn.body:
-        if isinstance(n, ast.If) and "ast.Load" in norm(n.test):
-            load_block = n.body
-    if load_block is None:
-        raise AnalysisError("ast_name: the Load branch was not found")
-    for n in load_block:  # only the top-level fall-through chain of the Load branch
-        if isinstance(n, ast.If):
-            t = norm(n.test)
-            for name, pred in marks:
-                if pred(t) and name not in order:
-                    order.append(name)
-    exp = [m[0] for m in marks]
-    ctx.check(order == exp, "R03.7", "eval.py::AstEval.ast_name", "lookup chain order",
-              msg=f"ast_name consults {order}; documented precedence is {exp}", key="name lookup order", node=fn, rel="eval.py",
-              sample={"order": order})
+    for label, name, loc, ev, glob, decl, is_local, want in cases:
+        h = dict(MODULE_SCOPE)
+        st = [(Const("$symtab"), Const("local"))]
+        if loc == "cell":
+            st.append((Const(name), ObjV("cell_n", "EvalLocalVar")))
+            h["cell_n.defined"] = Const(True)
+            h["cell_n.value"] = C
+            h["cell_n.name"] = Const(name)
+        elif loc is not None:
+            st.append((Const(name), loc))
+        h["self.sym_table"] = DictV(tuple(st))
+        h["self.local_sym_table"] = DictV(((Const(name), ev),) if ev is not None else ())
+        h["self.global_sym_table"] = DictV(((Const("$symtab"), Const("global")),) + (((Const(name), glob),) if glob is not None else ()))
+        h["self.curr_func"] = ObjV("curfunc", "EvalFunc")
+        h["curfunc.global_names"] = ListV((Const(name),) if decl else (), "set")
+        h["curfunc.nonlocal_names"] = ListV((), "set")
+        h["curfunc.local_names"] = ListV((Const(name),) if is_local else (), "set")
+        node = NodeV("Name", {"id": Const(name), "ctx": NodeV("Load", {}, "ctx")}, f"name:{name}")
+        out = run_handler(program, node, pol, method="ast_name", heap=h)
+        got = set()
+        for c in out.get("return"):
+            v = c.env.get("$ret")
+            if isinstance(v, App) and v.op == "getattr" and "builtins" in repr(v.args[0]) and v.args[1] == Const(name):
+                got.add("builtin")
+            elif isinstance(v, App) and v.op == "new" and "EvalName" in repr(v):
+                got.add("NameError")  # the undefined-name marker: aeval turns it into NameError
+            else:
+                got.add(v)
+        for c in out.get("raise"):
+            got.add(getattr(c.env.get("$exc"), "cls", "?"))
+        ctx.check(got == {want}, "R03.7", "eval.py::AstEval.ast_name", f"lookup: {label}",
+                  msg=f"name lookup of `{name}` ({label}) gives {sorted(map(repr, got))}, Python's scoping gives {want!r}", key=f"lookup {label}", node=fn, rel="eval.py")
 
 
 def _init_wrap_rule(ctx, program):
@@ -642,6 +680,104 @@ def _init_wrap_rule(ctx, program):
     ctx.check(len(w) == 1 and w == r, "R03.8", "eval.py::AstEval.call_func", "wrapper attribute names agree",
               msg=f"ast_classdef stores the renamed __init__ under {sorted(w)} but call_func reads {sorted(r)}",
               key="__init__ wrapper name", node=program.func("eval.py::AstEval.call_func"), rel="eval.py")
+
+
+def _class_namespace_rule(ctx, program):
+    """ast_classdef interpreted on a class statement inside a function whose name x already has a closure cell: what namespace reaches the metaclass, what happens to the cell."""
+    ctx.rule("R03.15", "class statement: an existing closure cell of the class name is kept (set, not replaced); the namespace handed to the metaclass renames a script-defined "
+                       "__init__ to the wrapper attribute and carries no wrapper entry at all otherwise (a None entry would hide the __init__ inherited from a script base class)", floor=2)
+    uid = "eval.py::AstEval.ast_classdef"
+    cell = ObjV("cell_x", "EvalLocalVar")
+    initf = ObjV("init_fn", "EvalFuncVar")
+    for with_init in (False, True):
+        seen = []
+
+        def body_stmt(i, n, a, k, c, o):
+            return [(c, NONE)]
+
+        # a namespace that holds a script-defined __init__ when the body is done is modelled by the metaclass preparing it that way
+        prepared = DictV([(Const("__init__"), initf)]) if with_init else DictV([])
+
+        def metaclass(i, n, a, k, c, o, seen=seen):
+            return [(c.emit(("ns", a[2] if len(a) > 2 else None)), ObjV("the_class", "type"))]
+
+        pol = FlowPolicy(program, may_raise_all=False, cancel=False, events=["self.call_func"],
+                         summaries={"self.aeval": body_stmt, "metaclass": metaclass, "inspect.iscoroutine": lambda i, n, a, k, c, o: [(c, Const(False))],
+                                    "hasattr": lambda i, n, a, k, c, o: [(c, Const(True))], "metaclass.__prepare__": lambda i, n, a, k, c, o, prepared=prepared: [(c, prepared)],
+                                    "keywords.pop": lambda i, n, a, k, c, o: [(c, a[1] if len(a) > 1 else NONE)]},
+                         globals_={"EvalLocalVar": ClassV("EvalLocalVar"), "EvalReturn": ClassV("EvalReturn"), "EvalStopFlow": ClassV("EvalStopFlow")})
+        pol.loop_unroll = 3
+        pol.track_aliases = True  # `sym_table_assign = self.sym_table`: stores through the local name reach the scope dictionary
+        pol.distinct_slots = True  # the function scope and the module globals are two dictionaries
+        node = NodeV("ClassDef", {"name": Const("x"), "decorator_list": ListV((), "list"), "bases": ListV((), "list"), "keywords": ListV((), "list"),
+                                  "body": ListV((NodeV("Pass", {}, "arg.body[0]"),), "list")}, "arg")
+        local = DictV([(Const("x"), cell), (Const("y"), Const(1))])
+        heap = {"self.sym_table": local, "self.global_sym_table": DictV([(Const("g"), Const(0))]), "self.sym_table_stack": ListV((), "list"),
+                "self.curr_func": ObjV("curfn", "EvalFunc"), "curfn.global_names": ListV((), "set"), "cell_x.defined": Const(True), "cell_x.value": Sym(("old", "x"))}
+        out = run_flow(program, uid, pol, args={"self": ObjV("self", "AstEval"), "arg": node}, heap=heap)
+        bad = None
+        ex = exits(out)
+        for k, c, d in ex:
+            tab = c.heap.get("self.sym_table")
+            if k != "return":
+                bad = f"ends with {d}"
+            elif not isinstance(tab, DictV) or tab.get(Const("x")) != cell:
+                bad = (f"the scope afterwards maps x to {tab.get(Const('x')) if isinstance(tab, DictV) else tab!r} instead of the closure cell it had: functions that captured x "
+                       f"(an earlier pass of a loop, a sibling function) never see the class defined now")
+        for k, c, d in ([] if bad else ex):
+            seen = [e[1] for e in c.trace if e[0] == "ns"]
+            if len(seen) != 1 or not isinstance(seen[0], DictV):
+                bad = f"the metaclass is called {len(seen)} time(s) with namespace {seen[:1]!r}"
+            else:
+                ns = {kk.v: vv for kk, vv in seen[0].items if isinstance(kk, Const)}
+                if with_init and (ns.get("__init__evalfunc_wrap__") != initf or "__init__" in ns):
+                    bad = f"namespace of a class defining __init__: {ns}"
+                elif not with_init and "__init__evalfunc_wrap__" in ns:
+                    bad = (f"namespace of a class without __init__ contains __init__evalfunc_wrap__ = {ns['__init__evalfunc_wrap__']!r}: it hides the wrapper inherited from a script-defined "
+                           f"base class, whose __init__ is then not run (TypeError for its arguments)")
+        ctx.check(bool(ex) and bad is None, "R03.15", uid, f"class x inside a function, {'with' if with_init else 'without'} its own __init__", msg=f"ast_classdef: {bad or 'no exit'}",
+                  key=f"class namespace init={with_init}", node=program.func(uid), rel="eval.py")
+
+
+def _captured_cell_rule(ctx, program):
+    """EvalFunc.call: which cell object a name denotes inside the body - the enclosing function's (captured names) or a new one per call (own locals)."""
+    ctx.rule("R03.16", "at every call a captured variable is the enclosing function's cell itself - also while that variable is still unbound there (a nonlocal write "
+                       "made before the outer assignment must not be lost); the function's own locals get a new cell per call", floor=2)
+    fn = program.func("eval.py::EvalFunc.call")
+    fdef = to_nodev(ast.parse("def f():\n    s0").body[0])
+    for outer_defined in (True, False):
+        pol = HandlerPolicy(program, stmt_markers=(None,))
+        pol.snapshot = True
+        interp = EventInterp(pol, "eval.py")
+        outer, tmpl = ObjV("outer_cell", "EvalLocalVar"), ObjV("own_template", "EvalLocalVar")
+        heap = dict(MODULE_SCOPE)
+        G = Sym(("object", "ctxA"))
+        heap.update({
+            "self.global_ctx": G, "func.global_ctx": G, "func.func_def": fdef, "func.num_posonly_arg": Const(0), "func.num_posn_arg": Const(0), "func.defaults": ListV(()),
+            "func.kw_defaults": ListV(()), "func.name": Const("f"), "func.global_ctx_name": Const("file.x"), "func.code_str": Const(""), "func.code_list": ListV(()),
+            "func.local_sym_table": DictV(((Const("cap"), outer), (Const("own"), tmpl))), "func.local_names": ListV((Const("own"),), "set"),
+            "func.nonlocal_names": ListV((), "set"), "func.global_names": ListV((), "set"),
+            "outer_cell.defined": Const(outer_defined), "outer_cell.value": Sym(("outer", "value")), "outer_cell.name": Const("cap"),
+            "own_template.defined": Const(False), "own_template.name": Const("own"),
+        })
+        interp.call_stack.append(fn)
+        out = interp.run_function(fn, {"self": ObjV("func", "EvalFunc"), "ast_ctx": ObjV("self", "AstEval"), "args": ListV((), "tuple"), "kwargs": DictV(())}, Cfg(heap=heap))
+        bad = None
+        n = 0
+        for c in out.get("return") + out.get("raise"):
+            for e in c.trace:
+                if e[0] != "snapshot" or not isinstance(e[1], DictV):
+                    continue
+                n += 1
+                cap, own = e[1].get(Const("cap")), e[1].get(Const("own"))
+                if cap != outer:
+                    bad = (f"inside the body the captured name denotes {cap!r}, not the enclosing function's cell: what the body assigns through `nonlocal` never reaches the "
+                           f"enclosing function (and it never sees the value assigned there later)")
+                elif own == tmpl or own == outer or not ((isinstance(own, App) and own.op == "new") or (isinstance(own, ObjV) and own.cls == "EvalLocalVar")):
+                    bad = f"the function's own local denotes {own!r} instead of a cell created for this call: recursive or repeated calls share one variable"
+        ctx.check(n > 0 and bad is None, "R03.16", "eval.py::EvalFunc.call", f"captured variable {'bound' if outer_defined else 'still unbound'} in the enclosing function at call time",
+                  msg=f"EvalFunc.call (captured variable {'bound' if outer_defined else 'not bound yet'} in the enclosing function): {bad or 'the body was not reached'}",
+                  key=f"captured cell shared defined={outer_defined}", node=fn, rel="eval.py")
 
 
 def _who_may_call_rule(ctx, program):
@@ -670,6 +806,8 @@ def run(ctx):
     _scope_order_rule(ctx, program)
     _lookup_order_rule(ctx, program)
     _init_wrap_rule(ctx, program)
+    _class_namespace_rule(ctx, program)
+    _captured_cell_rule(ctx, program)
     _who_may_call_rule(ctx, program)
     return (
         "Static, source-only. R03.1: EvalFunc.__init__/eval_defaults/call are abstractly interpreted on schematic signatures and the "
